@@ -23,14 +23,15 @@
      delegate character tokens to it (reconstruct-the-active-formatting-elements is a no-op the second time, frameset-ok is
      the OR over the pieces).
    * TreeSplitForeign.v: the split theorem for character tokens handled by the foreign-content rules.
+   * TreeSplitEarly.v: tokens of white space only in the modes that cut character tokens into runs.
    * TreeSplitRun.v: whole token lists related by [splits], under the side condition that every cut token is
      processed in a covered state ([tree_split_run_partial]); the list of what is not covered is in its header.
    * TreeSplitTable.v: the flush of the pending table text when it is white space only.
    NOT PROVED
    * the rest of the table-text machinery (the pending lists differ by [(a++b)] / [a; b]: the relation between the
      two runs has to identify them between the cut and the flush; the foster-parenting branch of the flush);
-     the early modes that split off leading white space (SplitWhitespace: the runs of a ++ b are not the runs of a
-     followed by the runs of b when a run spans the cut; dropped white space is dropped in both); foster parenting,
+     tokens with other characters than white space in the early modes that split off leading white space
+     (SplitWhitespace: the runs of a ++ b are not the runs of a followed by the runs of b when a run spans the cut); foster parenting,
      template current nodes.  NUL characters are separate tokens.
    ======================================================================== *)
 From Coq Require Import List NArith Bool Arith Lia String.
